@@ -549,8 +549,9 @@ P.OBS_PAIR = {"C16": obs_C16_pair, "C13": obs_C13_pair}
 def obs_C09(g, out):
     q = 1e-9 * g.psi_scale()
     out["psivals9"] = [Q(r["psi_vals"], q) for r in sorted(g.extra["regions"], key=lambda r: r["id"])]
-    out["dx9"] = {"centre": Q(g.var("dx"), q), "ylow": Q(g.var("dx_ylow"), q)}
+    out["dx9"] = {"centre": Q(g.var("dx"), q), "ylow": Q(g.var("dx_ylow"), q), "xlow": Q(g.var("dx_xlow"), q)}
     out["psixl9"] = Q(g.var("psixy_xlow"), q)
+    out["psic9"] = Q(g.var("psixy"), q)
     out["bpsign"] = int(g.extra["regions"][0]["bpsign"])
 
 
